@@ -249,12 +249,65 @@ def spec(line):
     return ' | '.join(out)
 
 
-def impl_for(_line):
-    return impl
+# ---- which observations are memoised (correspondence only: the property does not say what may be memoised) ----
+
+def memo_flags(obj):
+    return ''.join(tf(k in obj.__dict__) for k in ('bounds', 'centroid', 'area')) + tf(obj.to_shapely.cache_info().currsize > 0)
 
 
-def spec_for(_line):
-    return spec
+def impl_memo(line):
+    _cmd, *args = line.split()
+    parts = og.split_semis(args)
+    kind, variant, dt, nh, nseq = parts[0]
+    live = og.template(kind, int(variant), int(nh), int(nseq), og.p_dt(dt), {})
+    out = [memo_flags(live)]
+    for part in parts[1:]:
+        op = ' '.join(part)
+        p = op.split(':')
+        try:
+            if op == 'copy':
+                live = live.copy()
+            elif op == 'pickle':
+                live = og.roundtrip(live)
+            elif p[0] == 'r':
+                do_read(live, p[1])
+            else:
+                og.apply_mut(live, ':'.join(p[1:-1]), p[-1] == '1')
+        except common.ImplTimeout:
+            raise
+        except Exception:  # noqa  -- failing updates leave the receiver as it was
+            pass
+        out.append(memo_flags(live))
+    return ' '.join(out)
+
+
+def gen_memo(run):
+    rng = run.rng
+    lines = []
+    for kind in og.KINDS:
+        nseq = NSEQ.get(kind, 0)
+        for variant in ((0, 1) if kind == 'ring' else (0,)):
+            for dt in ('_', f'{T0}:{T0 + 60_000_000}'):
+                nh = 1 if kind in og.HAS_HOLES else 0
+                hd = f'sm.memo {kind} {variant} {dt} {nh} {nseq}'
+                for r in READS[kind]:
+                    lines.append(f'{hd} ; r:{r} ; u:setdt:{T0}:{T0 + 5}:1 ; r:{r} ; u:strip:0 ; pickle ; r:{r} ; copy ; r:{r}')
+                for _ in range(run.scale(4, 40)):
+                    ops = []
+                    for _ in range(rng.randrange(2, 9)):
+                        x = rng.random()
+                        ops.append('r:' + rng.choice(READS[kind]) if x < 0.6 else
+                                   f'u:{rng.choice(UPDATES)}:{rng.choice("10")}' if x < 0.8 else rng.choice(['copy', 'pickle']))
+                    lines.append(hd + ' ; ' + ' ; '.join(ops))
+    return lines
+
+
+def impl_for(line):
+    return impl_memo if line.startswith('sm.memo') else impl
+
+
+def spec_for(line):
+    return None if line.startswith('sm.memo') else spec
 
 
 # ---- generators ---------------------------------------------------------------------------------------
@@ -346,7 +399,9 @@ def check(run):
             t.append('res:ret')
         return t
     run.run_cases('systematic-histories', gen_systematic(), impl, spec, tag=tag)
-    run.run_cases('random-histories', gen_random(run, run.scale(500, 6000), run.scale(8, 12)), impl, spec, tag=tag)
+    run.run_cases('random-histories', gen_random(run, run.scale(500, 9000), run.scale(8, 12)), impl, spec, tag=tag)
+    run.run_cases('memo-slots', gen_memo(run), impl_memo, None,
+                  tag=lambda ln, a: ['memo:' + ln.split()[1], 'memo-final:' + a.split()[-1]])
     return run.finish(
         rule='a case is one history: every kind (ring and wedge) x every update (set_dt / buffer_dt / strip_dt / set_property, '
              'both inplace modes, failing calls included) surrounded by every read-only call of that kind, every read twice, every '
